@@ -125,3 +125,43 @@ LOOPS = dict([
                'claimed here')
 def solve_loop(h):
     _solve(h)
+
+
+@contract('C05/AbstractSolver.Solve', ['C05', 'C03', 'C04'], A + '::AbstractSolver.Solve', native=False)
+def solve_entry(h):
+    """Solve: the keyword settings are processed, then the objective is fetched (so constraints= / penalty= given to
+    Solve are in force for the whole run), the termination is installed, the run loop is entered exactly once with the
+    processed settings; a stale exit request is cleared before the run"""
+    if not h.is_sym():
+        h.unsupported('symbolic only')
+    handle = False          # (the signal-handler branch goes through `from signal import *`: outside the model; bounded in rtc/c05)
+    given_term = h.choice('termination_given', [False, True])
+    s = h.obj(A + '::AbstractSolver', _EARLYEXIT=h.bool('stale_exit_request'), _handle_sigint=handle, sigint_callback=None)
+    seq = []
+    settings = h.dict(callback=h.fn('CALLBACK', ret='none'))
+    cost_in, cost_out = h.fn('COST', ret='real'), h.fn('DECORATED', ret='real')
+    term = h.fn('TERMINATION', ret='bool')
+
+    def rec(name, ret=None):
+        def f(I, c, args, kwargs):
+            seq.append((name, list(args[1:]), dict(kwargs), I.st.heap[s].get('_EARLYEXIT')))
+            return ret
+        return f
+
+    def sig(I, a, k):
+        seq.append(('signal', list(a), dict(k), None))
+        return None
+    h.set_summaries({(A, 'AbstractSolver._process_inputs'): rec('process', settings),
+                     (A, 'AbstractSolver._bootstrap_objective'): rec('bootstrap', cost_out),
+                     (A, 'AbstractSolver.SetTermination'): rec('termination'),
+                     (A, 'AbstractSolver._Solve'): rec('run')})
+    h.call(h.getattr(s, 'Solve'), cost_in, term if given_term else None, None, constraints=h.fn('CONS', ret='same'))
+    names = [x[0] for x in seq if x[0] != 'signal']
+    want = ['process', 'bootstrap'] + (['termination'] if given_term else []) + ['run']
+    h.check('settings-processed-then-objective-fetched-then-termination-installed-then-one-run', 'ok', ok=(names == want))
+    run = [x for x in seq if x[0] == 'run']
+    h.check('run-loop-gets-the-decorated-objective-and-the-processed-settings',
+            'ok', ok=bool(run) and run[0][1][0] is cost_out and set(run[0][2]) == {'callback'})
+    h.check('stale-exit-request-cleared-before-the-run', 'flag is False', flag=run[0][3] if run else None)
+    proc = [x for x in seq if x[0] == 'process']
+    h.check('keyword-settings-reach-_process_inputs', 'ok', ok=bool(proc) and 'constraints' in h.st.heap[proc[0][1][0]])
